@@ -360,7 +360,9 @@ func baseSamples(k string) []interface{} {
 		// subject line, a content warning, base83) and strings that are IRIs
 		// in a form other than the one they would be written back in
 		return []interface{}{"plain text", "", "two words & <b>markup</b>", "unicode é世界", "no-scheme/path",
-			"Re: hello", "CW: spoilers #tag y", "Note: 100% sure?", "LKO2:N%2Tw=w]~RB", "a:b", "HTTPS://Example.com/Path", "x-y.z+1:rest of the line"}
+			"Re: hello", "CW: spoilers #tag y", "Note: 100% sure?", "LKO2:N%2Tw=w]~RB", "a:b", "HTTPS://Example.com/Path", "x-y.z+1:rest of the line",
+			// text in the neighbourhood of other kinds' lexical spaces
+			"Paris", "P", "-P", "PT", "P1Y2", "PT5", "P1S", "P1D and more", "PY", "P1DT", "2020-13-45", "truely", "12abc"}
 	case "RFCBcp47":
 		return []interface{}{"en", "en-US", "zh-Hant-TW"}
 	case "RFCRfc2045":
